@@ -192,8 +192,10 @@ def handle : Handler
       let l ← intList? labels
       let r ← intList? refined
       let n := l.length
+      let la := l.toArray
+      let ra := r.toArray
       let within := (List.range n).all fun i => (List.range n).all fun j =>
-        !(r.getD i 0 == r.getD j 0) || l.getD i 0 == l.getD j 0
+        !(ra.getD i 0 == ra.getD j 0) || la.getD i 0 == la.getD j 0
       some (verdict (r.length == n && within) s!"len={r.length == n} within={within}")) "bad-args"
   -- specification lines ------------------------------------------------------------------
   | "c05.spec_reindex", [l, out] => some <| Option.getD (do
@@ -210,7 +212,9 @@ def handle : Handler
       let index ← natList? index
       let labels ← intList? labels
       let n := (levels.headD []).length
-      let a := levels.foldl (fun (a : List Nat) raw => a.map fun x => (inverse raw).getD x 0) (List.range n)
+      let a := levels.foldl (fun (a : List Nat) raw =>
+        let lab := (inverse raw).toArray
+        a.map fun x => lab.getD x 0) (List.range n)
       let seen := if (← bool? sh) then index.map fun v => labels.getD v (-1) else labels
       some (verdict (samePartitionB a seen && labels.length == n))) "bad-args"
   | "c05.spec_shuffle", [n, m, ip, ix, dt, bip, kn, kip, kix, index] => some <| Option.getD (do
